@@ -194,8 +194,13 @@ func init() {
 			if nt {
 				x.Nontrivial(string(c.Args))
 			}
-			if len(ops) < 22 {
-				x.Sample(map[string]any{"history": json.RawMessage(c.Args)})
+			if len(ops) < 90 {
+				// the read-everything-back tail (6 namespaces x keys) is left out of the sample
+				head := ops
+				if len(head) > 24 {
+					head = head[:24]
+				}
+				x.Sample(map[string]any{"operations": len(ops), "first_operations": head})
 			}
 		},
 	})
